@@ -184,6 +184,9 @@ func (g *gen) layoutSteps(v int, nextVar *int, shape []int, class string) (steps
 	return
 }
 
+// generators: one program generator per property id (registered in init() of the gen_*.go files).
+var generators = map[string]func(*gen){}
+
 func genCmd(args []string) {
 	fs := flag.NewFlagSet("gen", flag.ExitOnError)
 	prop := fs.String("prop", "", "property id")
@@ -193,29 +196,14 @@ func genCmd(args []string) {
 	w := bufio.NewWriterSize(os.Stdout, 1<<20)
 	defer w.Flush()
 	g := &gen{w: w, r: &rng{s: *seed*0x9e3779b97f4a7c15 + 12345}, tier: *tier, pfx: *prop + "_"}
+	if f, ok := generators[*prop]; ok {
+		f(g)
+		return
+	}
 	switch *prop {
-	case "C01":
-		genC01(g)
-	case "C02":
-		genC02(g)
-	case "C03":
-		genC03(g)
-	case "C05":
-		genC05(g)
-	case "C04":
-		genC04(g)
-	case "C13":
-		genC13(g)
-	case "C06":
-		genC06(g)
-	case "C07":
-		genC07(g)
-	case "C11":
-		genC11(g)
-	case "C12":
-		genC12(g)
 	default:
 		fmt.Fprintln(os.Stderr, "no generator for", *prop)
 		os.Exit(2)
 	}
+	_ = g
 }
